@@ -14,6 +14,7 @@ import numpy
 
 from mpv import arr, ref, cmdgen
 
+ANCHORS = ['mpilot/utils.py:insure_fuzzy', 'mpilot/libraries/eems/fuzzy.py:FuzzyXOr.execute', 'mpilot/libraries/eems/fuzzy.py:FuzzySelectedUnion.execute', 'mpilot/libraries/eems/basic.py:NormalizeCurve.execute', 'mpilot/libraries/eems/basic.py:NormalizeMeanToMid.execute', 'mpilot/libraries/eems/basic.py:NormalizeCat.execute', 'mpilot/libraries/eems/csv/io.py:EEMSRead.execute']   # repository functions the workload must enter (reported as anchors_reached / anchors_missed)
 LEVEL = "exploration"
 RULE = ("every built-in data command x 1..5 inputs x rank 1-3 shapes x int/float dtypes x mask styles (nomask, all-false, random, "
         "single cell, all-but-one, all) x 3 payloads under the mask; CSV cases vary the number stored in missing cells; distinct by "
